@@ -53,7 +53,7 @@ ElN(nm, at, ld, ks, tr) == [k |-> "el", name |-> nm, attrs |-> at, lead |-> ld, 
 IfN(brs, els, he)   == [k |-> "if", brs |-> brs, els |-> els, haselse |-> he]     \* brs: <<[c, body]>>
 ForN(l, body)       == [k |-> "for", l |-> l, body |-> body]
 SwitchN(cases)      == [k |-> "switch", cases |-> cases]                           \* <<[key, body]>>
-CallN(c)            == [k |-> "call", comp |-> c]
+CallN(c, af)        == [k |-> "call", comp |-> c, after |-> af]   \* after # "v" is only spellable with the legacy {! c() } syntax
 CallBN(c, body)     == [k |-> "callb", comp |-> c, body |-> body]
 SlotN(af)           == [k |-> "slot", after |-> af]
 GoCodeN             == [k |-> "gocode"]
@@ -68,7 +68,7 @@ Trailer(nd) == nd.k \in {"text", "expr", "void", "el"}
 \* whitespace written after a node in the source
 WsAfter(nd) == IF nd.k = "text" /\ nd.tr = "" /\ "sp" \in DOMAIN nd /\ nd.sp THEN "h"   \* space kept inside the text value
                ELSE IF Trailer(nd) THEN nd.tr
-               ELSE IF nd.k \in {"slot", "hcomment", "mcomment", "raw"} THEN nd.after
+               ELSE IF nd.k \in {"slot", "hcomment", "mcomment", "raw", "call"} THEN nd.after
                ELSE "v"                       \* control flow, calls, Go code, Go comments, doctype end their line
 LineStart(k) == k \in {"if", "for", "switch", "call", "callb", "gocode", "gocodeml", "gcomment", "doctype"}
 
@@ -108,7 +108,7 @@ Leaves ==
     {TextN(w, tr) : w \in Words, tr \in Ws} \cup
     {ExprN(e, tr) : e \in Exprs, tr \in Ws} \cup
     {VoidN(nm, at, tr) : nm \in VoidNames, at \in AttrChoices, tr \in Ws} \cup
-    {CallN(c) : c \in {"leaf", "wrap"}} \cup
+    {CallN(c, af) : c \in {"leaf", "wrap"}, af \in Ws} \cup
     {SlotN(af) : af \in Ws} \cup
     {HCommentN(af) : af \in Ws} \cup
     {MCommentN(af) : af \in Ws} \cup
